@@ -635,6 +635,26 @@ def run(facts, res):
                 if not ok:
                     res.violation("A5", "%s|unrecognised-result" % pp, "%s returns %s, not a membership / verified-read result" % (pp, fmt(ct, 4)), pb.loc(t.line))
         res.floor("A5", "true-returning paths of %s" % pp, n_true, 1)
+        # A5c: writer / reader agreement on the revisions that have no stored object: DataStorage::write_object stores nothing for the
+        # kinds it tests first (resolution markers, deletions, empty objects, character objects), so the availability predicate must
+        # answer `available` for each of those kinds - a kind the predicate forgets makes every block that records such a revision
+        # (a committed resolution) Blocked for ever on a reopened replica
+        wo = facts.body("datastorage::DataStorage::write_object")
+        if wo is not None:
+            skipped = {t.callee.name for _, t in wo.calls() if t.callee is not None and t.callee.name in SPECIAL}
+            accepted = set()
+            for mb_ in [pb]:
+                for _, t in mb_.calls():
+                    if t.callee is not None and t.callee.name in SPECIAL:
+                        accepted.add(t.callee.name)
+            uses_reader = any(t.callee is not None and t.callee.name in ("read_object", R.name("obj_reader")) for _, t in pb.calls())
+            missing = sorted(skipped - accepted) if not uses_reader else []
+            res.instance("A5", "%s accepts every revision kind write_object stores nothing for (%s): %s" % (pp, sorted(skipped), not missing), pb.loc())
+            res.floor("A5", "revision kinds write_object stores nothing for", len(skipped), 3)
+            if missing:
+                res.violation("A5", "%s|no-object-kind-not-accepted:%s" % (pp, ",".join(missing)),
+                              "%s does not answer `available` for revisions of kind %s, although DataStorage::write_object stores no object for them: "
+                              "a block that records such a revision can never become Ready" % (pp, missing), pb.loc())
 
 
 def _same_delta(body, block, arg, facts):
@@ -779,6 +799,16 @@ def check_ready_earned(b, ready_block, facts, res):
                             while hops < 20 and c_[0] in ("ref", "deref", "cast", "var"):
                                 hops += 1
                                 c_ = c_[3] if c_[0] == "var" else c_[1]
+                            if c_[0] == "upvar" and xb.kind == "closure":
+                                # the predicate is a closure of the enclosing function, captured by this closure and handed on by name
+                                from ..conds import capture_term as _capt
+                                ct_ = _capt(xb, c_[1], facts)
+                                hops = 0
+                                while ct_ is not None and hops < 20 and ct_[0] in ("ref", "deref", "cast", "var"):
+                                    hops += 1
+                                    ct_ = ct_[3] if ct_[0] == "var" else ct_[1]
+                                if ct_ is not None and ct_[0] == "closure":
+                                    c_ = ct_
                             if c_[0] == "closure":
                                 inner_c = c_
                         if inner_c is not None and facts.body(inner_c[1]) is not None:
@@ -801,9 +831,18 @@ def check_ready_earned(b, ready_block, facts, res):
                         here = here + [Lit("call", _subst(ct, mapping), truth=w_, block=sblk)]
                     res_.append(here)
                 return res_
+            from ..conds import expand_predicates as _expp
             for ls_ in passing_sites(cb, want, {}, []):
                 n_sites += 1
-                inner_ok = inner_ok and any(pass_pred(l) for l in ls_)
+                ok_site = any(pass_pred(l) for l in ls_)
+                if not ok_site:
+                    # a local closure called by name (`let unavailable = |r| !data.is_readable(r); .. unavailable(r)`): its answer stands
+                    # for the literals common to the sites where it gives that answer
+                    try:
+                        ok_site = any(pass_pred(l) for l in _expp(ls_, facts, cb))
+                    except Exception:
+                        ok_site = False
+                inner_ok = inner_ok and ok_site
         finally:
             MODE["closure"] = None
         res.instance("A2", "%s check (closure form %s): Ready only over the passing edge (%s); the closure passes only through `%s` (%d site(s): %s)" % (
